@@ -33,6 +33,9 @@ def pool(chk, mdl):
     texts += ["AZaz09+.-://AZaz09-._~%41%5A%61%7A%30%39%2D%2E%5F%7E%40%5B%60%7B%2F%3A@AZaz09.%41%5a%7a/AZ%41%5A%5a?AZ%5A#AZ%7a", "Z://Z", "zZ:/Z", "//Z%5A", "//[vZ.Zz]", "//Zz@Z:1/Z"]
     # a colon anywhere in the segment behind the kept dot, also in first and last position
     texts += [pre + seg + tail for pre in ("./", "%2E/", "x/.././", "../") for seg in (":b", ":", "b:", ":80", "a:b:c") for tail in ("", "/x", "/..", "/../y")]
+    # absent / empty / non-empty for every component (an empty component stays present and empty); IPv6 spellings of every length
+    deg = uris.degenerate_texts() + uris.long_ip6_texts()
+    texts += deg if not q else [t for i, t in enumerate(deg) if i % 3 == 0 or len(t) <= 6]
     for f in sorted(glob.glob(os.path.join(lib.VERIF, "corpus", PID, "*.json"))):
         texts.insert(0, json.load(open(f))["uri"])
     seen = set(); out = []
@@ -50,7 +53,7 @@ def run(chk):
     H = uris.hist
     reqs = []; meta = []
     for ti, t in enumerate(texts):
-        masks = list(range(64)) if (ti % 4 == 0 or chk.tier != "quick") else [0, 1, 2, 4, 8, 16, 32, 63, 4294967295]
+        masks = list(range(64)) if (ti % 4 == 0 or chk.tier != "quick") else [0, 1, 2, 4, 8, 16, 32, 63, 4294967295, 64, 4294967232]
         for owned in (0, 1):
             pre = [('p', 0, t)] + ([('o', 0)] if owned else [])
             for m in masks:
